@@ -88,22 +88,31 @@ def special(s):
     return any(not (ch.isascii() and (ch.isalnum() or ch in "_./=-")) for ch in s)
 
 
-def gen_cases(ctx, n):
+def gen_cases(ctx, n, file_dir=None):
     rng = ctx.rng
     cases = [c for c in ctx.corpus() if "fields" in c]
     while len(cases) < n:
-        c = sg.gen_definition(rng, max_fields=5, form="functional")
+        c = sg.gen_definition(rng, max_fields=5, form="functional", file_dir=file_dir)
         sg.gen_values(rng, c, nasty=0.45, braces=0.0, falsy=0.02)
         cases.append(c)
     return cases
 
 
 def run(ctx):
+    import shutil as _sh, tempfile as _tf
+    file_dir = _tf.mkdtemp(prefix="verif-c24-files-")
+    try:
+        return _run(ctx, file_dir)
+    finally:
+        _sh.rmtree(file_dir, ignore_errors=True)
+
+
+def _run(ctx, file_dir):
     import time
     t0 = time.time()
     rng = ctx.rng
-    n = ctx.budget(300, 4000)
-    cases = gen_cases(ctx, n)
+    n = ctx.budget(300, 2500)
+    cases = gen_cases(ctx, n, file_dir)
     metas, terms = [], []
     for c in cases:
         obs = sg.observe(c)
@@ -171,8 +180,8 @@ def run(ctx):
     t2 = time.time()
 
     # ---- CPython shlex.split / shlex.join vs Base/Shlex.v: random strings, and join of the observed vectors
-    strings = sg.gen_shlex_strings(rng, ctx.budget(600, 6000))
-    vectors = [o["argv"] for o in metas if o["argv"] is not None][:ctx.budget(200, 2000)]
+    strings = sg.gen_shlex_strings(rng, ctx.budget(400, 3000))
+    vectors = [o["argv"] for o in metas if o["argv"] is not None][:ctx.budget(200, 1000)]
     nshlex, bad = sg.check_shlex(ctx, "c24shlex", strings, vectors)
     out.evaluations += nshlex
     out.extra["shlex_cases_compared_with_cpython"] = nshlex
